@@ -3580,6 +3580,12 @@ EGLPNUM_TYPENAME_QSLIB_INTERFACE int EGLPNUM_TYPENAME_QSwrite_prob_file (
 {
 	int rval = 0;
 	EGioFile_t*lout = EGioOpenFILE(out);
+	if (lout == NULL)
+	{
+		QSlog("EGLPNUM_TYPENAME_QSwrite_prob_file called without a stream");
+		rval = 1;
+		ILL_CLEANUP;
+	}
 	rval = QSwrite_prob_EGioFile(p,lout,filetype);
 	CHECKRVALG(rval,CLEANUP);
 	CLEANUP:
